@@ -10,22 +10,6 @@ namespace OFV.RT
 set_option linter.unusedSimpArgs false
 open OFV OFV.Go OFV.Model
 
-theorem u8_n8 (x : Nat) (h : x < 256) : V.u8 (n8 x) = .num x := by
-  simp [V.u8, n8, UInt8.toNat_ofNat', Nat.mod_eq_of_lt h]
-theorem u16_n16 (x : Nat) (h : x < 65536) : V.u16 (n16 x) = .num x := by
-  simp [V.u16, n16, UInt16.toNat_ofNat', Nat.mod_eq_of_lt h]
-theorem u32_n32 (x : Nat) (h : x < 4294967296) : V.u32 (n32 x) = .num x := by
-  simp [V.u32, n32, UInt32.toNat_ofNat', Nat.mod_eq_of_lt h]
-theorem u64_n64 (x : Nat) (h : x < 18446744073709551616) : V.u64 (n64 x) = .num x := by
-  simp [V.u64, n64, UInt64.toNat_ofNat', Nat.mod_eq_of_lt h]
-
-theorem makeCopy_exact (n : Nat) (b tail : Bytes) (h : b.length = n) : makeCopy n (b ++ tail) = b := by
-  simp [makeCopy, copyInto, h]
-
-theorem makeCopy_self (n : Nat) (b : Bytes) (h : b.length = n) : makeCopy n b = b := by
-  have := makeCopy_exact n b [] h
-  simpa using this
-
 /-- the 16-byte IPv4-in-IPv6 form, as produced by net.IPv4 / net.ParseIP -/
 def isV4in6 (ip : Bytes) : Prop := ip.length = 16 ∧ ip.take 12 = zeros 10 ++ [255, 255]
 
@@ -88,16 +72,6 @@ def PayloadWF (v : V) : Prop :=
   | "ByteArrayField" => ∃ d l, v = .obj "ByteArrayField" [.bytes d, .num l] ∧ l < 256 ∧ d.length = l
   | "CTLabel" => IsBytes "CTLabel" 16 v
   | _ => False
-
-theorem rd16_be16' (v : UInt16) : rd16 (be16 v) = some v := by
-  have := rd16_be16 v []; simpa using this
-theorem rd32_be32' (v : UInt32) : rd32 (be32 v) = some v := by
-  have := rd32_be32 v []; simpa using this
-theorem rd64_be64' (v : UInt64) : rd64 (be64 v) = some v := by
-  have := rd64_be64 v []; simpa using this
-theorem take_be16 (v : UInt16) (tail : Bytes) : (be16 v ++ tail).take 2 = be16 v := rfl
-theorem take_be32 (v : UInt32) (tail : Bytes) : (be32 v ++ tail).take 4 = be32 v := rfl
-theorem take_be64 (v : UInt64) (tail : Bytes) : (be64 v ++ tail).take 8 = be64 v := rfl
 
 /-- the receiver the decoder is called on: of the same kind; a ByteArrayField receiver carries the expected Length
     (the decoder reads it), an ArpXHaField receiver is any allocated one -/
